@@ -1,6 +1,7 @@
 /* Harness for CC_DynamicPool. Pointers are printed as p<page index from the oldest>+<offset in payload>.
  * Independent monitors (ok flag): block inside a page the pool owns, disjoint from every live block,
  * aligned (padded mode), accounting identities, page count after reset. */
+#define VF_NO_POOL 1   /* this harness includes the pool sources itself */
 #include "common.h"
 #include "memory/cc_dynamic_pool.c"
 
